@@ -318,7 +318,7 @@ func checkLarge(c largeCase) error {
 
 func TestPropLarge(t *testing.T) {
 	rapid.Check(t, func(rt *rapid.T) {
-		sp := genLargeSpec(rt, largeShapes, []int{1, 1, 1, 2, 5}, true, 8600, evid.Pick(12000, 40000))
+		sp := genLargeSpec(rt, largeShapes, []int{1, 1, 1, 2, 5}, true, 8600, evid.Pick(12000, 30000))
 		c := largeCase{Data: sp, Ratio: rapid.SampledFrom([]float64{1, 1, 1, 0.5}).Draw(rt, "ratio")}
 		// few workers = many links per worker
 		p := rapid.Permutation([]int{2, 2, 3, 4, 8, 32}).Draw(rt, "workers")
@@ -374,12 +374,16 @@ func TestPropCLILarge(t *testing.T) {
 		if evid.Thorough() {
 			samples, sparse = []int{1, 1, 2, 5}, true
 		}
-		sp := genLargeSpec(rt, []string{"two_level", "two_level", "two_level", "stars"}, samples, sparse, 17200, evid.Pick(20000, 50000))
+		sp := genLargeSpec(rt, []string{"two_level", "two_level", "two_level", "stars"}, samples, sparse, 17200, evid.Pick(20000, 40000))
 		c := cliLargeCase{Data: sp,
 			Ratio:     rapid.SampledFrom([]float64{1, 1, 1, 0.5}).Draw(rt, "ratio"),
 			BatchSize: rapid.SampledFrom([]int{0, 0, 500}).Draw(rt, "batchsize")}
 		// the reference run uses few workers (many links per worker), the others any number
-		c.Runs = []cliRun{{MaxCPU: rapid.SampledFrom([]int{1, 2, 2, 3}).Draw(rt, "maxcpu0")}}
+		first := []int{1, 2, 2} // (1 is another spelling of 2)
+		if evid.Thorough() {
+			first = []int{1, 2, 2, 3, 4}
+		}
+		c.Runs = []cliRun{{MaxCPU: rapid.SampledFrom(first).Draw(rt, "maxcpu0")}}
 		for k := rapid.IntRange(1, evid.Pick(1, 2)).Draw(rt, "more_runs"); k > 0; k-- {
 			r := cliRun{MaxCPU: rapid.SampledFrom([]int{2, 3, 4, 8, 16}).Draw(rt, "maxcpu")}
 			if rapid.Bool().Draw(rt, "jitter") {
